@@ -30,7 +30,7 @@ class World(S.WorldComponent):
     theorems = ["parsers_total", "sctp_rx_total"]
     mix = [("hostile", False, 2), ("hostile-benign", False, 3), ("hostile-benign", True, 1)]
     quick = (40, 220)
-    thorough = (800, 400)
+    thorough = (400, 400)
     oracles = [oracle_alive]
 
     def shrink(self, case):
